@@ -57,6 +57,10 @@ func (vc *ConnCursor) Rowid() (int64, error) {
 	return 0, nil
 }
 
+// connTimeFormat is SQLiteTimeFormat plus the fraction of a second, if there is one: a time
+// that was set with a fraction (time.Parse accepts one) reads back as it was set.
+const connTimeFormat = s3db.SQLiteTimeFormat + ".999999999"
+
 func (vc *ConnCursor) Column(context *sqlite.VirtualTableContext, i int) error {
 	if context.NoChange() {
 		// a column an UPDATE does not assign: Update sees NoChange() and keeps it
@@ -67,13 +71,13 @@ func (vc *ConnCursor) Column(context *sqlite.VirtualTableContext, i int) error {
 		if vc.vm.sc.deadline.IsZero() {
 			context.ResultNull()
 		} else {
-			context.ResultText(vc.vm.sc.deadline.Format(s3db.SQLiteTimeFormat))
+			context.ResultText(vc.vm.sc.deadline.Format(connTimeFormat))
 		}
 	case 1:
 		if vc.vm.sc.writeTime.IsZero() {
 			context.ResultNull()
 		} else {
-			context.ResultText(vc.vm.sc.writeTime.Format(s3db.SQLiteTimeFormat))
+			context.ResultText(vc.vm.sc.writeTime.Format(connTimeFormat))
 		}
 	default:
 		context.ResultError(fmt.Errorf("unhandled column %d", i))
